@@ -5,7 +5,7 @@
                                                 get_combined_plutus_scripts (2427-2486), get_witness_set
                                                 (2491-2521), add_required_signer, add_reference_input,
                                                 add_extra_witness_datum
-     rust/src/builders/tx_inputs_builder.rs     TxInputsBuilder: add_key_input / add_bootstrap_input /
+     rust/src/builders/tx_inputs_builder.rs     TxInputsBuilder: add_key_input / add_bootstrap_input / add_*_utxo (well-typed) /
                                                 add_native_script_input / add_plutus_script_input /
                                                 add_required_signer, push_input, insert_input_with_witness,
                                                 get_ref_inputs, get_native_input_scripts,
@@ -173,13 +173,16 @@ Definition ib_ref_inputs (ops : list in_op) : list oref :=
                      | SWNative _ => sw_script_ref (snd e)
                      | SWPlutus _ => sw_datum_ref (snd e) ++ sw_script_ref (snd e)
                      end) (ib_scripts ops).
-(* get_plutus_input_scripts: only inputs still registered with a script hash; index = rank *)
+(* get_plutus_input_scripts: only inputs that are currently registered under the script hash of the entry
+   (repo commit ae86092; before it: under any script hash); index = rank *)
 Definition rank (o : oref) (l : list oref) : N := N.of_nat (length (filter (fun x => x <? o) l)).
+Definition registered_under (ops : list in_op) (o : oref) (h : sid) : bool :=
+  existsb (fun b : oref * option sid =>
+             N.eqb (fst b) o && match snd b with Some h' => N.eqb h' h | None => false end) (ib_inputs ops).
 Definition ib_plutus (ops : list in_op) : list ptagged :=
-  let script_inputs := flat_map (fun e => match snd e with Some _ => [fst e] | None => [] end) (ib_inputs ops) in
   flat_map (fun e => match snd e with
                      | SWPlutus p =>
-                         if memN (snd (fst e)) script_inputs
+                         if registered_under ops (snd (fst e)) (fst (fst e))
                          then [{| pt_tag := TAG_SPEND; pt_item := rank (snd (fst e)) (ib_body_inputs ops); pt_wit := p |}]
                          else []
                      | _ => [] end) (ib_scripts ops).
